@@ -13,6 +13,7 @@ from ..drivers import run_stream
 
 PROP = "C18"
 LEVEL = "exploration"
+BLOCK = 32   # neighbouring configurations share a worker process
 RULE = ("(a) stream cases: every action emitted by the common stream set "
         "(all ten classes; Mixed additionally through the tabulated branch "
         "that carries numpy integers) is checked for field types and "
@@ -57,6 +58,16 @@ def cases(tier, seed):
     for i in range(400 if th else 60):
         out.append({"kind": "pool", "pseed": rng.randrange(2 ** 31),
                     "size": 50 if th else 36})
+    # online schedules that are NOT finalised at once: every further
+    # pre-finalisation Forward must be well formed too
+    for k in range(1, 7 if th else 5):
+        for c in ("SingleMemory", "SingleDiskCopy", "SingleDiskMove", "None"):
+            out.append({"kind": "prefix", "k": k, "cfg": {"cls": c, "n": 0}})
+        for p in (1, 3, 8):
+            out.append({"kind": "prefix", "k": k,
+                        "cfg": {"cls": "TwoLevel", "n": 0, "period": p,
+                                "bs": 1, "storage": "RAM",
+                                "traj": "maximum"}})
     return out
 
 
@@ -253,6 +264,8 @@ def run_case(case, ctx):
                                                      for a in pool[:6]]}}
     from checkpoint_schedules import mixed
     cfg = case["cfg"]
+    if case["kind"] == "prefix":
+        return run_prefix(case, L, ns)
     saved = mixed.numba
     if case.get("tab"):
         mixed.numba = object()
@@ -260,7 +273,14 @@ def run_case(case, ctx):
         distinct = {}
         import vf.drivers as D
         # run the stream, collecting the action objects themselves
-        s, _ = D.build_captured(cfg)
+        try:
+            s, _ = D.build_captured(cfg)
+        except Exception as e:
+            # construction failures are C17's / C01's business
+            mixed.numba = saved
+            return {"violations": contracts.drain(), "evals": {},
+                    "counters": {"construct_errors": 1},
+                    "nontrivial": False, "key": cfg_str(cfg)}
         from ..executor import Executor
         ex = Executor(cfg, cfg["n"])
         want = D.default_passes(cfg, case.get("passes", 1))
@@ -317,6 +337,71 @@ def run_case(case, ctx):
             "sample": {"cfg": cfg, "tabulated_branch": bool(case.get("tab")),
                        "emitted": [act_str(a) for a in acts[:5]]}
             if kinds >= 3 else None}
+
+
+def run_prefix(case, L, ns):
+    """k+1 next() calls on an online schedule without finalising, then a
+    finalisation inside the last Forward and the rest of the first pass."""
+    import vf.drivers as D
+    from ..executor import Executor
+    cfg = dict(case["cfg"])
+    s, _ = D.build_captured(cfg)
+    acts = []
+    last = None
+    for _ in range(case["k"] + 1):
+        try:
+            a = next(s)
+        except Exception:
+            break
+        acts.append(a)
+        if isinstance(a, Forward):
+            last = a
+    n_true = None
+    if last is not None:
+        try:
+            n0, n1 = int(last.n0), int(last.n1)
+            n_true = n0 + 1 if n1 > n0 else None
+        except Exception:
+            n_true = None
+    ex = Executor(dict(cfg, n=n_true or 1), n_true or 1)
+    if n_true is None:
+        # malformed last Forward: run the field checks only
+        for a in acts:
+            ex.step(a)
+    else:
+        fin = False
+        for a in acts:
+            if ex.step(a) and not fin:
+                fin = True
+        try:
+            s.finalize(n_true)
+            ex.finalize_done(True)
+        except Exception:
+            pass
+        cap = 60
+        while cap > 0 and ex.phase != "done" and ex.passes < 1:
+            cap -= 1
+            try:
+                a = next(s)
+            except Exception:
+                break
+            acts.append(a)
+            ex.step(a)
+            if isinstance(a, EndForward) and cfg["cls"] == "None":
+                break
+    for a in acts[:40]:
+        L.unary(a, ns)
+    viols = [v for v in ex.violations if v["prop"] == "C18"] + L.viols
+    evals = {k: v for k, v in ex.evals.items() if k.startswith("C18.")}
+    for k, v in L.evals.items():
+        evals[k] = evals.get(k, 0) + v
+    return {"violations": viols + contracts.drain(), "evals": evals,
+            "counters": {"prefix_histories": 1,
+                         "emitted_actions_checked": len(acts)},
+            "nontrivial": case["k"] >= 1,
+            "key": f"prefix {cfg_str(cfg)} k={case['k']}",
+            "sample": {"kind": "prefix", "cfg": cfg, "k": case["k"],
+                       "emitted": [act_str(a) for a in acts[:4]]}}
 
 
 close_context = S.close_context
